@@ -1,6 +1,7 @@
 """C05 - membership tests agree with the set the domain expression denotes."""
 import json
 from ..pipeline import geo_sig
+from ..astutil import free_vars
 
 RULE = ("TLC generates domain expressions (all of depth <= 1 over a pool of 11 2-D primitives incl. slanted, clockwise and "
         "parameter-dependent ones, intervals, spheres, 4 translation vectors, 6 rational rotations about 3 points, "
@@ -12,7 +13,8 @@ RULE = ("TLC generates domain expressions (all of depth <= 1 over a pool of 11 2
 def scenarios(ctx, stride_q=3, nsim_q=40):
     scen = ctx.gen("Gen_Geo", "Gen_Geo_exh")
     if ctx.quick:
-        scen = ctx.stratified(scen, 1.0 / stride_q, key=lambda s: geo_sig(s["expr"], False))
+        # classes: operator / primitive kinds, and whether the expression depends on parameters at all
+        scen = ctx.stratified(scen, 1.0 / stride_q, key=lambda s: geo_sig(s["expr"], False) + ("|p" if free_vars(s["expr"]) else ""))
     sim = ctx.gen("Gen_Geo", "Gen_Geo_sim" if ctx.quick else "Gen_Geo_sim4", simulate="num=%d" % (nsim_q if ctx.quick else 600), depth=6)
     return scen + sim
 
